@@ -9,6 +9,7 @@ from common import Ctx, import_repo
 from faultrun import OPS, Scripted
 
 CLOCK = [1000.0]
+SCALE = 100         # the model counts time in ticks of 1/SCALE second (fractional pool_idle_timeout values)
 
 
 class FakeTimeMod:
@@ -26,6 +27,9 @@ FAULTS = [
     {"mutation": "error-line"},
     {"mutation": "garbage-line"},
     {"recv_fault": (2, "reset"), "chunk": "bytes"},
+    # "once each call has returned or raised the number of checked-out connections is back to zero": also when what is raised is not an Exception
+    {"recv_fault": (0, "kbd")},
+    {"send_fault": "interrupt"},
 ]
 ALPHA = [{"op": "set", "k": "a", "v": b"1", "nr": False}, {"op": "get", "k": "a"}, {"op": "get_many", "ks": ["a", "b"]}, {"op": "incr", "k": "a", "d": 1, "nr": False},
          {"op": "delete", "k": "a", "nr": False}, {"op": "quit"}, {"op": "set", "k": " bad key", "v": b"1", "nr": False}, {"op": "decr", "k": "a", "d": 1, "nr": False},
@@ -139,7 +143,7 @@ def run_seq(ctx, PooledClient, seq, cfg, rng):
         else:
             swallowed = not r.startswith("exc:")
             body = ("swal" if swallowed else "fail") + ("1" if connected_now else "0")
-        model_evs.append(f"{int(now - 1000)}:{int(fin - 1000)}:{body}")
+        model_evs.append(f"{round((now - 1000) * SCALE)}:{round((fin - 1000) * SCALE)}:{body}")
         obs.append(f"{rec['client'] if rec['client'] is not None else '-'}/{io if io is not None else '-'}")
     free = ",".join(f"{clients[id(o)][0]}/{connmap[o.sock.id] if o.sock is not None and o.sock.id in connmap else '-'}" for o in pool.free)
     open_socks = sorted(c.id for c in W.conns if not c.closed)
@@ -181,9 +185,20 @@ def main(argv):
     for _ in range(6000 if ctx.thorough else 800):
         seqs.append(tuple((rng.choice(gaps + [0, 0, 3]), rng.choice(ALPHA + MORE + OPS[:12]), rng.choice(FAULTS + [None] * 6), rng.choice([0, 0, 0, 4, 30]))
                           for _ in range(rng.randrange(3, 11))))
+    # fractional idle timeouts (sub-second, and between whole seconds): gaps just below / at / above the exact value
+    frac_cfgs = [(1, 0.5, False), (None, 2.5, True), (2, 2.5, False), (1, 0.25, True)]
+    fgaps = [0, 0.25, 0.5, 0.75, 2.25, 2.5, 2.75, 10]
+    frac = []
+    for g1 in fgaps:
+        for g2 in fgaps[1:]:
+            frac.append(((0, ALPHA[0], None), (g1, ALPHA[1], None), (g2, ALPHA[1], None)))
+    for g1 in fgaps[1:]:
+        frac.append(((0, ALPHA[1], FAULTS[3]), (g1, ALPHA[1], None), (g1, ALPHA[0], None)))
+    nfrac = len(frac) * len(frac_cfgs)
+    seqs = [(fc, sq) for sq in frac for fc in frac_cfgs] + [(None, sq) for sq in seqs]
     n = 0
-    for i, seq in enumerate(seqs):
-        cfg = cfgs[i % len(cfgs)]
+    for i, (fcfg, seq) in enumerate(seqs):
+        cfg = fcfg or cfgs[i % len(cfgs)]
         res = run_seq(ctx, PooledClient, seq, cfg, rng)
         n += 1
         ctx.case((cfg, repr(seq)), sample={"cfg": cfg, "calls": [(it[0], it[1]["op"], repr(it[2]), (it[3] if len(it) > 3 else 0)) for it in seq]} if n in (40, 5000) else None)
@@ -194,7 +209,7 @@ def main(argv):
         for e in model_evs:
             ctx.count("body:" + e.split(":")[1])
         mx, idle, ign = cfg
-        lines.append(f"pooled cfg={mx or 2 ** 31},{idle} evs={','.join(model_evs) or '-'}")
+        lines.append(f"pooled cfg={mx or 2 ** 31},{round(idle * SCALE)} evs={','.join(model_evs) or '-'}")
         metas.append(({"cfg": cfg, "calls": [(it[0], it[1]["op"], repr(it[2]), (it[3] if len(it) > 3 else 0)) for it in seq], "events": model_evs},
                       f"ok obs=[{','.join(obs)}] free=[{free}] closed=[{','.join(map(str, closed_order))}] out=0"))
     if ctx.lean.build_ok:
